@@ -21,7 +21,7 @@ type Desc struct {
 	PV    string `json:"pv"`    // ok allow0 coll price proof chal hfund rfund noelem
 	Basis string `json:"basis"` // same behind fork forkx
 	Inp   string `json:"inp"`   // conf unconf forkc (confirmed only on the renter's own fork) unconfc (parent confirmed on the host's chain in blocks the renter lacks)
-	Fault string `json:"fault"` // none dial cutB1..cutA4 m1basis m1value m2low m2id m3sig m3pol m3len m4empty m4sig m4txn bcast record
+	Fault string `json:"fault"` // none dial cutB1..cutA4 m1basis m1value m2low m2id m3sig m3pol m3len m4empty m4sig m4txn bcast wclose1..3
 }
 
 func (d Desc) String() string {
@@ -33,6 +33,8 @@ func (d Desc) String() string {
 type mitm struct {
 	kind  string
 	fault string
+	// collaborator fault: called when message k passes (fault "wclose<k>")
+	onWClose func()
 	mu    sync.Mutex
 	notes []string
 }
@@ -59,6 +61,9 @@ func flipSig(s *types.Signature) { s[0] ^= 1 }
 // corrupt applies the fault's mutation to message k (if the fault targets it).
 func (m *mitm) corrupt(k int, o proto4.Object) {
 	f := m.fault
+	if f == fmt.Sprintf("wclose%d", k) && m.onWClose != nil {
+		m.onWClose() // the host's wallet is shut down while this message is in flight
+	}
 	switch k {
 	case 1:
 		var basis *types.ChainIndex
@@ -410,7 +415,7 @@ func (w *World) Attempt(d Desc) (*Obs, error) {
 	}
 
 	// ---- faults
-	m := &mitm{kind: d.Kind, fault: d.Fault}
+	m := &mitm{kind: d.Kind, fault: d.Fault, onWClose: func() { w.host.w.Close(); w.hostWalletClosed = true }}
 	if d.Kind != "form" && d.Kind != "renew" {
 		m.kind = "refresh"
 	}
